@@ -186,27 +186,28 @@ theorem bindE {T U : Type} (erT : T → T) (erU : U → U) (ra rb : Except ε T)
   · subst h; rfl
   · exact hk _ _ h
 
-def LS.er (l : LS α δ) : LS α δ := { l with sf := l.sf.er }
-def St.er (s : St α) : St α := { s with cbStates := [], sf := s.sf.er }
+def LS.er (l : LS α δ) : LS α δ := { l with sf := l.sf.er, olog := [] }
+def St.er (s : St α) : St α := { s with cbStates := [], sf := s.sf.er, olog := [] }
 
-theorem LS.exists_ghost {a b : LS α δ} (h : a.er = b.er) : ∃ l, b = { a with sf := { a.sf with log := l } } := by
+theorem LS.exists_ghost {a b : LS α δ} (h : a.er = b.er) :
+    ∃ l ol, b = { a with sf := { a.sf with log := l }, olog := ol } := by
+  refine ⟨b.sf.log, b.olog, ?_⟩
   cases a; cases b
-  simp only [LS.er, LS.mk.injEq] at h
-  obtain ⟨h1, h2, h3, h4, h5, h6, h7, h8, h9, h10⟩ := h
+  simp only [LS.er, LS.mk.injEq, and_true] at h
+  obtain ⟨h1, h2, h3, h4, h5, h6, h7, h8, h9⟩ := h
   obtain ⟨l, hl⟩ := exists_log h1
-  refine ⟨l, ?_⟩
-  subst h2 h3 h4 h5 h6 h7 h8 h9 h10
+  subst h2 h3 h4 h5 h6 h7 h8 h9
   simp only [LS.mk.injEq, and_true]
-  exact hl
+  rw [hl]
 
 theorem St.exists_ghost {a b : St α} (h : a.er = b.er) :
-    ∃ l cbs, b = { a with cbStates := cbs, sf := { a.sf with log := l } } := by
-  refine ⟨b.sf.log, b.cbStates, ?_⟩
+    ∃ l cbs ol, b = { a with cbStates := cbs, sf := { a.sf with log := l }, olog := ol } := by
+  refine ⟨b.sf.log, b.cbStates, b.olog, ?_⟩
   cases a; cases b
-  simp only [St.er, St.mk.injEq] at h
-  obtain ⟨h1, h2, h3, h4, h5, h6, h7, h8, h9, h10, h11, h12, h13, -, h15⟩ := h
+  simp only [St.er, St.mk.injEq, and_true] at h
+  obtain ⟨h1, h2, h3, h4, h5, h6, h7, h8, h9, h10, h11, h12, h13⟩ := h
   obtain ⟨l, hl⟩ := exists_log h7
-  subst h1 h2 h3 h4 h5 h6 h8 h9 h10 h11 h12 h13 h15
+  subst h1 h2 h3 h4 h5 h6 h8 h9 h10 h11 h12 h13
   simp only [St.mk.injEq, true_and, and_true]
   rw [hl]
 
@@ -215,7 +216,7 @@ variable [Add α] [Sub α] [Mul α] [Div α] [Neg α] [LT α] [DecidableLT α] [
 
 theorem lsStep_congr (u : User α ε) (o : Oracles α δ) (x0 d lb ub : Vec α) (l l' : LS α δ) (h : l.er = l'.er) :
     (lsStep u o x0 d lb ub l).map (fun p => (p.1.er, p.2)) = (lsStep u o x0 d lb ub l').map (fun p => (p.1.er, p.2)) := by
-  obtain ⟨lg, rfl⟩ := LS.exists_ghost h
+  obtain ⟨lg, ol, rfl⟩ := LS.exists_ghost h
   unfold lsStep
   dsimp only
   split
@@ -249,9 +250,9 @@ theorem lsLoop_congr (u : User α ε) (o : Oracles α δ) (x0 d lb ub : Vec α) 
     · simp [pure, Except.pure, Except.map, hpq.1]
 
 theorem lineSearch_congr (u : User α ε) (o : Oracles α δ) (c : Cfg α) (x0 : Vec α) (f0 : α) (g0 d : Vec α)
-    (nit : Nat) (sf sf' : SF α) (maxIter : Nat) (olog : List (OReq α)) (h : sf.er = sf'.er) :
-    (lineSearch u o c x0 f0 g0 d nit sf maxIter olog).map (fun p => (p.1.er, p.2)) =
-    (lineSearch u o c x0 f0 g0 d nit sf' maxIter olog).map (fun p => (p.1.er, p.2)) := by
+    (nit : Nat) (sf sf' : SF α) (maxIter : Nat) (olog olog' : List (OReq α)) (h : sf.er = sf'.er) :
+    (lineSearch u o c x0 f0 g0 d nit sf maxIter olog).map (fun p => (p.1.er, p.2.1, ([] : List (OReq α)))) =
+    (lineSearch u o c x0 f0 g0 d nit sf' maxIter olog').map (fun p => (p.1.er, p.2.1, ([] : List (OReq α)))) := by
   unfold lineSearch
   dsimp only
   apply bindE (fun p : LS α δ × Bool => (p.1.er, p.2)) _ _ _ _ _
@@ -259,7 +260,7 @@ theorem lineSearch_congr (u : User α ε) (o : Oracles α δ) (c : Cfg α) (x0 :
   rintro ⟨p1, p2⟩ ⟨q1, q2⟩ hpq
   simp only [Prod.mk.injEq] at hpq
   obtain ⟨h1, h2⟩ := hpq
-  obtain ⟨lg, rfl⟩ := LS.exists_ghost h1
+  obtain ⟨lg, ol, rfl⟩ := LS.exists_ghost h1
   subst h2
   dsimp only
   split
@@ -275,7 +276,7 @@ abbrev Cfg.cb (c : Cfg α) (b : Bool) : Cfg α := { c with hasCallback := b }
 theorem stopTests_congr (c : Cfg α) (b b' : Bool) (s t : St α) (f0Old : α) (h : s.er = t.er) :
     ((stopTests (c.cb b) s f0Old).1.er, (stopTests (c.cb b) s f0Old).2) =
     ((stopTests (c.cb b') t f0Old).1.er, (stopTests (c.cb b') t f0Old).2) := by
-  obtain ⟨lg, cbs, rfl⟩ := St.exists_ghost h
+  obtain ⟨lg, cbs, ol, rfl⟩ := St.exists_ghost h
   unfold stopTests
   dsimp only
   split
@@ -284,20 +285,20 @@ theorem stopTests_congr (c : Cfg α) (b b' : Bool) (s t : St α) (f0Old : α) (h
 
 theorem iterFail_congr (s t : St α) (h : s.er = t.er) :
     ((iterFail s).1.er, (iterFail s).2) = ((iterFail t).1.er, (iterFail t).2) := by
-  obtain ⟨lg, cbs, rfl⟩ := St.exists_ghost h
+  obtain ⟨lg, cbs, ol, rfl⟩ := St.exists_ghost h
   unfold iterFail
   dsimp only
   split <;> rfl
 
 theorem memStep_congr (c : Cfg α) (b b' : Bool) (s t : St α) (h : s.er = t.er) :
     (memStep (c.cb b) s).er = (memStep (c.cb b') t).er := by
-  obtain ⟨lg, cbs, rfl⟩ := St.exists_ghost h
+  obtain ⟨lg, cbs, ol, rfl⟩ := St.exists_ghost h
   unfold memStep
   rfl
 
 theorem classify_congr (c : Cfg α) (b b' : Bool) (s t : St α) (h : s.er = t.er) :
     (classify (c.cb b) s).er = (classify (c.cb b') t).er := by
-  obtain ⟨lg, cbs, rfl⟩ := St.exists_ghost h
+  obtain ⟨lg, cbs, ol, rfl⟩ := St.exists_ghost h
   unfold classify
   dsimp only
   split
@@ -308,14 +309,14 @@ theorem classify_congr (c : Cfg α) (b b' : Bool) (s t : St α) (h : s.er = t.er
 
 theorem guard_congr (c : Cfg α) (b b' : Bool) (s t : St α) (h : s.er = t.er) :
     guard (c.cb b) s = guard (c.cb b') t := by
-  obtain ⟨lg, cbs, rfl⟩ := St.exists_ghost h
+  obtain ⟨lg, cbs, ol, rfl⟩ := St.exists_ghost h
   rfl
 
 /-- a callback that always answers "go on" leaves no trace outside the logs -/
 theorem doCallback_congr (u : User α ε) (hcb : ∀ r, u.callback r = .ok false) (c : Cfg α) (b b' : Bool)
     (s t : St α) (h : s.er = t.er) :
     (doCallback u (c.cb b) s).map St.er = (doCallback u (c.cb b') t).map St.er := by
-  obtain ⟨lg, cbs, rfl⟩ := St.exists_ghost h
+  obtain ⟨lg, cbs, ol, rfl⟩ := St.exists_ghost h
   unfold doCallback
   dsimp only
   cases b <;> cases b' <;> cases hs : s.success <;>
@@ -324,7 +325,7 @@ theorem doCallback_congr (u : User α ε) (hcb : ∀ r, u.callback r = .ok false
 theorem afterEval_congr (u : User α ε) (c : Cfg α) (b b' : Bool) (s t : St α) (f0Old : α) (h : s.er = t.er) :
     (afterEval u (c.cb b) s f0Old).map (fun p => (p.1.er, p.2)) =
     (afterEval u (c.cb b') t f0Old).map (fun p => (p.1.er, p.2)) := by
-  obtain ⟨lg, cbs, rfl⟩ := St.exists_ghost h
+  obtain ⟨lg, cbs, ol, rfl⟩ := St.exists_ghost h
   unfold afterEval
   dsimp only
   split
@@ -341,7 +342,7 @@ theorem iterStep_congr (u : User α ε) (hcb : ∀ r, u.callback r = .ok false) 
     (s t : St α) (d : Vec α) (stp f0Old : α) (h : s.er = t.er) :
     (iterStep u (c.cb b) s d stp f0Old).map (fun p => (p.1.er, p.2)) =
     (iterStep u (c.cb b') t d stp f0Old).map (fun p => (p.1.er, p.2)) := by
-  obtain ⟨lg, cbs, rfl⟩ := St.exists_ghost h
+  obtain ⟨lg, cbs, ol, rfl⟩ := St.exists_ghost h
   unfold iterStep
   dsimp only
   apply bindE (fun p : SF α × α × Vec α => (p.1.er, p.2)) _ _ _ _ _
@@ -362,22 +363,22 @@ theorem iterStep_congr (u : User α ε) (hcb : ∀ r, u.callback r = .ok false) 
   · simp [pure, Except.pure, Except.map, e1]
   · apply bindE St.er _ _ _ _ _ (doCallback_congr u hcb c b b' _ _ (memStep_congr c b b' _ _ e1))
     intro w w' hw
-    obtain ⟨lg', cbs', rfl⟩ := St.exists_ghost hw
+    obtain ⟨lg', cbs', ol', rfl⟩ := St.exists_ghost hw
     simp [pure, Except.pure, Except.map, St.er, SF.er]
 
 theorem iterBody_congr (u : User α ε) (o : Oracles α δ) (hcb : ∀ r, u.callback r = .ok false) (c : Cfg α)
     (b b' : Bool) (s t : St α) (h : s.er = t.er) :
     (iterBody u o (c.cb b) s).map (fun p => (p.1.er, p.2)) =
     (iterBody u o (c.cb b') t).map (fun p => (p.1.er, p.2)) := by
-  obtain ⟨lg, cbs, rfl⟩ := St.exists_ghost h
+  obtain ⟨lg, cbs, ol, rfl⟩ := St.exists_ghost h
   unfold iterBody
   dsimp only
-  apply bindE (fun p : SF α × Option α × List (OReq α) => (p.1.er, p.2)) _ _ _ _ _
-    (lineSearch_congr u o (c.cb b) _ _ _ _ _ _ _ _ _ (by simp [SF.er]))
+  apply bindE (fun p : SF α × Option α × List (OReq α) => (p.1.er, p.2.1, ([] : List (OReq α)))) _ _ _ _ _
+    (lineSearch_congr u o (c.cb b) _ _ _ _ _ _ _ _ _ _ (by simp [SF.er]))
   rintro ⟨p1, p2, p3⟩ ⟨q1, q2, q3⟩ hpq
   simp only [Prod.mk.injEq] at hpq
-  obtain ⟨h1, h2, h3⟩ := hpq
-  subst h2 h3
+  obtain ⟨h1, h2, -⟩ := hpq
+  subst h2
   dsimp only
   cases p2 with
   | none =>
@@ -408,7 +409,7 @@ theorem mainLoop_congr (u : User α ε) (o : Oracles α δ) (hcb : ∀ r, u.call
     · simp [pure, Except.pure, Except.map, h]
 
 theorem result_congr (s t : St α) (h : s.er = t.er) : s.result = t.result := by
-  obtain ⟨lg, cbs, rfl⟩ := St.exists_ghost h
+  obtain ⟨lg, cbs, ol, rfl⟩ := St.exists_ghost h
   rfl
 
 theorem initEval_cb (u : User α ε) (c : Cfg α) (b b' : Bool) : initEval u (c.cb b) = initEval u (c.cb b') := rfl
